@@ -22,7 +22,7 @@ META = {
              "Non-trivial = resultant R>0.05 (not isotropic); distinct = sha1 of the case."),
     "assumptions": [
         "non-negativity slack -1e-15*max(D); normalisation |sum D*dtheta - 1| <= 1e-9 per frequency",
-        "batch independence is checked bit-for-bit against the one-element call",
+        "batch independence: the batch element equals the one-element call within 1e-12 of the distribution maximum (fastmath SIMD reductions are alignment dependent at the 1-ulp level, so bit-for-bit equality is not stable across machines)",
         "round trip e(f) within 1e-9 relative; metadata byte-identical",
         "noisy moments are finite and strictly inside the unit disc (radius <= 0.999) as the property states",
     ],
@@ -73,7 +73,10 @@ def run_dist(c):
     one = [np.array([M[j, i]]) for i in range(4)]
     D1 = np.asarray(est(*one, d, method=method, **kw))
     Dj = D.reshape(-1, N)[j]
-    require(D1.shape == (1, N) and D1[0].tobytes() == Dj.tobytes(), "batch_element_equals_single_call",
+    # not bit-for-bit: the jitted kernels use fastmath SIMD reductions whose summation order depends on
+    # the run-time alignment of the arrays (1-ulp differences were observed on a fresh machine)
+    require(D1.shape == (1, N) and np.abs(D1[0] - Dj).max() <= 1e-12 * max(float(np.abs(Dj).max()), 1e-300),
+            "batch_element_equals_single_call",
             lambda: f"method={method}/{sm} max diff={np.abs(D1[0] - Dj).max()!r} moments={M[j].tolist()}")
     R = np.hypot(M[:, 0], M[:, 1])
     classes = [f"variant_{method}_{sm}", f"shape_{len(shape)}d"] + sorted({"kind_" + q["kind"] for q in c["quads"]})
